@@ -463,6 +463,23 @@ func runC10(c *core.Ctx) {
 		if w.Hist%7 != 0 {
 			k.Do("commit-all")
 		}
+		if (w.Hist == 4 || (c.Thorough() && w.Hist%400 == 4)) && w.State().Repo().HeadCommit() != "" {
+			// several hundred branches: sorted lists, positions and counters beyond 255
+			for i := 0; i < 262; i++ {
+				k.goit("branch", fmt.Sprintf("n%03d", (i*37)%262))
+			}
+			k.goit("branch", "--list")
+			k.goit("switch", "n255")
+			k.goit("branch", "-d", "n000")
+			k.goit("branch", "-d", "n261")
+			k.goit("branch", "-r", "n255renamed")
+			k.goit("switch", "-c", "zzz-last")
+			k.goit("branch", "--list")
+			k.Do("commit-all")
+			k.goit("rev-parse", "n128")
+			k.goit("branch", "--list")
+			c.Count("scale.many-branches")
+		}
 		steps := c.Pick(40, 60)
 		for i := 0; i < steps; i++ {
 			if w.Hist%5 == 3 && (i == 10 || i == 30) && w.State().Repo().HeadCommit() != "" {
@@ -618,6 +635,14 @@ func runC14(c *core.Ctx) {
 			w.Goit("config", "user.name", name)
 			w.Goit("config", "user.email", email)
 		}
+		if w.Hist == 2 || (c.Thorough() && w.Hist%400 == 2) {
+			// a parent chain of several hundred commits over a few branches; counts around 255 / 256 and beyond
+			k.LongHistory(262)
+			for _, kv := range []int{0, 1, 9, 10, 11, 99, 100, 101, 254, 255, 256, 257, 261, 262, 263, 264, 1000, 65535, 65536} {
+				k.goit("log", "-n", fmt.Sprint(kv))
+			}
+			k.goit("log")
+		}
 		length := 1 + w.Rng.IntN(c.Pick(12, 50))
 		logK := func() {
 			l := len(k.W.State().Repo().LogHEAD)
@@ -651,7 +676,17 @@ func runC14(c *core.Ctx) {
 			}
 			k.goit(args...)
 		}
+		clockSteps := c.GoitVFS != "" && w.Hist%6 == 4
+		if clockSteps {
+			// the clock of the machine is not monotone (a step back after a time correction, another machine): commits are
+			// then dated earlier than their ancestors, or all in the same second; the order of log is the parent chain
+			w.GoitBin = c.GoitVFS
+			c.Count("C14.histories-with-clock-steps")
+		}
 		for i := 0; i < length; i++ {
+			if clockSteps {
+				w.Env = map[string]string{"VERIF_NOW": fmt.Sprint(1_700_000_000 + int64(k.R.IntN(7)-3)*3600*int64(k.R.IntN(3)))}
+			}
 			w.Write(k.freshPath(), k.content())
 			k.AddAllTracked()
 			msg := fmt.Sprintf("c%d", i)
@@ -855,7 +890,7 @@ func (C20Mon) After(w *core.World, st *core.Step) {
 var c20Values = []string{
 	"plain", "two words", "a=b", "a=b=c", "=lead", "trail=", "[x]", "[", "]", "#hash", "a #b", "\"quoted\"", "it's", "é ü", "日本 語", "a;b", "k = v", "x[0]=1", "Łódź", "привет мир", "😀", "ÀÁÂ", "C:/path/to", "100%", "a,b", "(paren)", "{brace}", "~tilde", "!bang", "@at", "$var", "^caret", "&amp", "*star", "+plus", "|pipe", "<lt", ">gt", "?q", "`tick`",
 }
-var c20Names = []string{"Łukasz", "Пётр", "Àgnes", "dev 😀", "Alice", "Alice B", "A=B", "a=b=c", "[bot]", "#1 dev", "O'Neil", "\"Q\"", "José Núñez", "山田 太郎", "x]y", "Dr. X (PhD)", "a>b"}
+var c20Names = []string{"100% sure Jun", "50%% off", "%s %d %v", "Ren\ufffde", "Łukasz", "Пётр", "Àgnes", "dev 😀", "Alice", "Alice B", "A=B", "a=b=c", "[bot]", "#1 dev", "O'Neil", "\"Q\"", "José Núñez", "山田 太郎", "x]y", "Dr. X (PhD)", "a>b"}
 var c20Emails = []string{"a@example.com", "first.last@sub.example.org", "x_y+tag@a-b.co", "u@d.io"}
 
 // c20Long: a printable value of 4..10 KiB with single inner blanks, '=' and non-ASCII in its tail.
@@ -887,6 +922,23 @@ func runC20(c *core.Ctx) {
 			w.Write(k.freshPath(), k.content())
 			k.AddAllTracked()
 			k.goit("commit", "-m", k.message())
+		}
+		if w.Hist == 3 || (c.Thorough() && w.Hist%400 == 3) {
+			// several hundred keys in a few sections, then rewrites of early ones: no key may be lost on the way
+			for i := 0; i < 270; i++ {
+				sec := []string{"s1", "s2", "user", "core"}[i%4]
+				args := []string{"config", fmt.Sprintf("%s.key%03d", sec, i), fmt.Sprintf("value %d", i)}
+				if i%9 == 0 {
+					args = append([]string{"config", "--global"}, args[1:]...)
+				}
+				w.Goit(args...)
+			}
+			w.Goit("config", "s1.key000", "rewritten")
+			w.Goit("config", "core.key255", "rewritten")
+			w.Goit("config", "user.name", "After Many")
+			w.Goit("config", "user.email", "many@example.org")
+			commitTry()
+			c.Count("scale.many-config-keys")
 		}
 		for i := 0; i < nw; i++ {
 			sec, key := secs[r.IntN(len(secs))], keys[r.IntN(len(keys))]
